@@ -357,7 +357,13 @@ pub fn gen_positions(rng: &mut Rng, text: &str, prog: &gen_prog::Prog, offs: &[u
 pub fn gen_predefined_name_cases(rng: &mut Rng, out: &mut Vec<String>) {
     const BUILTINS: &[&str] = &["printi", "printc", "readi", "readc", "exit", "time", "clearAll", "setPixel", "drawLine", "drawCircle"];
     let b = *rng.pick(BUILTINS);
-    let text = match rng.below(10) {
+    let text = match rng.below(14) {
+        // a predefined procedure's name where a type is expected, and declarations named like predefined entities
+        // around a use of a predefined procedure
+        10 => format!("type t = {b};\ntype u = array [3] of {b};\nproc main() {{ var v: {b}; }}\n"),
+        11 => format!("type a = int;\nproc a() {{ {b}(1); }}\nproc main() {{ a(); }}\n"),
+        12 => format!("proc int() {{ {b}(1); }}\nproc main() {{ int(); }}\n"),
+        13 => format!("type {b} = int;\nproc p(x: {b}) {{ {b}(x); }}\nproc main() {{ p(1); }}\n"),
         // a USER procedure / type declared twice with different shapes: the table keeps the first entry, the
         // handlers walk the tokens of the second declaration
         6 => "proc p(a: int) { var x: int; x := a; }  proc p() { x := 1; }  proc main() {}".to_string(),
@@ -403,7 +409,10 @@ pub fn gen_predefined_name_cases(rng: &mut Rng, out: &mut Vec<String>) {
 /// nested calls and indices), probed at every identifier start, at 0:0 / 0:1 and behind every `(` and `,`;
 /// with the specification twins.
 pub fn gen_corner_docs(rng: &mut Rng, which: usize, out: &mut Vec<String>) {
-    let text = match which % 8 {
+    let text = match which % 10 {
+        // documentation comments WITHOUT text (bare `//`), alone and next to one with text
+        8 => "//\ntype t = int;\n//\n//\nproc p(\n//\na: int, ref b: t) {\n  //\n  var v: t;\n  v := a; b := v;\n}\n//\n// real doc\nproc q() { }\nproc main() { var x: t; p(1, x); q(); }\n".to_string(),
+        9 => "//  \nproc r(//\n ref k: int) { k := 1; }\n//\t\nproc main() { var n: int; r(n); }\n".to_string(),
         0 => "// about foo\nproc // the helper\n  foo(foo: int, ref bar: int) {\n  bar := foo + 1;\n}\nproc main() {\n  var foo: int;\n  foo(1, foo);\n}\n".to_string(),
         1 => "\n\n   proc main() {\n  var x: int;\n  x := 1;\n}\n".to_string(),
         2 => "\r\n\r\n\tproc p(a: int) { }\r\nproc main() { p(1); }\r\n".to_string(),
@@ -451,7 +460,8 @@ pub fn gen_feature_cases(rng: &mut Rng, n: usize, ops: &[&str], broken_pct: usiz
     for i in 0..n {
         if i % 25 == 7 {
             let mut tmp = vec![];
-            gen_corner_docs(rng, i / 25, &mut tmp);
+            let w = i / 25 + 3 * rng.below(4);
+            gen_corner_docs(rng, w, &mut tmp);
             out.extend(tmp.into_iter().filter(|l| {
                 let op = l.split(' ').next().unwrap_or("");
                 let base = op.strip_prefix("SPEC").unwrap_or(op);
